@@ -455,6 +455,9 @@ func negatives(g *gen.Gen) []Req {
 		Req{URI: "/loc/events/ingest", Params: map[string]interface{}{"location": "plain", "event": ""}, Neg: "the event parameter is empty"},
 		Req{URI: "/loc/facts/take", Prep: "readonly-with-fact", Params: map[string]interface{}{"location": "plain", "pattern": map[string]interface{}{"a": "zzz"}}, Neg: "operation fails: the location is read-only, the matching fact cannot be removed"},
 		Req{URI: "/loc/facts/search", Prep: "readonly-with-fact", Params: map[string]interface{}{"location": "plain", "pattern": map[string]interface{}{"a": "zzz"}, "take": true}, Neg: "operation fails: the location is read-only, the matching fact cannot be removed"},
+		Req{URI: "/loc/util/js", Params: map[string]interface{}{"location": "plain"}, Neg: "required parameter code missing"},
+		Req{URI: "/loc/util/js", Params: map[string]interface{}{"location": "plain", "code": 5.0}, Neg: "typed:code is a number"},
+		Req{URI: "/loc/util/js", Params: map[string]interface{}{"location": "plain", "code": "throw 'no'"}, Neg: "operation fails: the script throws"},
 		Req{URI: "/loc/nowhere", Params: map[string]interface{}{"location": "plain"}, Neg: "unknown URI"},
 		Req{URI: "/loc/rules/list", RawURI: 5.0, Params: map[string]interface{}{"location": "plain"}, Neg: "typed-uri:the uri is a number"},
 		Req{URI: "/loc/rules/list", RawURI: map[string]interface{}{"a": "/api/loc/rules/list"}, Params: map[string]interface{}{"location": "plain"}, Neg: "typed-uri:the uri is a map"},
